@@ -427,6 +427,26 @@ func evalC13(c c13Case, o *Obs) error {
 			}
 		}
 	}
+	// a filter re-parsed from its serialisations answers like the one that was built
+	if len(items) > 0 {
+		nb, _ := f.NBytes()
+		raw, _ := f.Bytes()
+		fn, e1 := gcs.FromNBytes(c.D.P, c.D.M, append([]byte{}, nb...))
+		fb, e2 := gcs.FromBytes(uint32(len(items)), c.D.P, c.D.M, append([]byte{}, raw...))
+		if e1 != nil || e2 != nil {
+			return fmt.Errorf("%s: re-parsing the filter's own serialisations fails: FromNBytes %v, FromBytes %v", desc, e1, e2)
+		}
+		for _, i := range []int{0, len(items) / 3, len(items) - 1} {
+			for name, g := range map[string]*gcs.Filter{"FromNBytes": fn, "FromBytes": fb} {
+				if ok, err := g.Match(key, items[i]); err != nil || !ok {
+					return fmt.Errorf("%s: member %x is not matched by the filter re-parsed with %s (%v, %v)", desc, items[i], name, ok, err)
+				}
+				if ok, err := g.MatchAny(key, [][]byte{derivedItem(c.D.Seed+1, 1), items[i]}); err != nil || !ok {
+					return fmt.Errorf("%s: member %x is not matched by MatchAny on the filter re-parsed with %s (%v, %v)", desc, items[i], name, ok, err)
+				}
+			}
+		}
+	}
 	// the serialisations handed out are copies: the caller may do with them what it likes
 	if len(items) > 0 {
 		for _, get := range []func() ([]byte, error){f.Bytes, f.NBytes, f.PBytes, f.NPBytes} {
@@ -732,6 +752,12 @@ func TestC13(t *testing.T) {
 			n := []int{65535, 65536, 65537, 70001}[shard%4]
 			d := gcsData{Key: HexBytes(bytes.Repeat([]byte{byte(shard + 1)}, 16)), P: 19, M: 784931, N: n, Seed: uint32(seedEnv)}
 			kC13.One(ev, c13Case{D: d, Qs: []gcsQuery{{Member: []int{0, n - 1}}, {Foreign: []int{1, 2, 3}}, {Member: []int{n / 2}, RepeatF: n/2 + 5}, {Foreign: []int{7}, RepeatF: n / 2}}})
+		}
+		// ... and values up to 2^50 with queries of several hundred items on the merge (zip) path
+		{
+			n := []int{2048, 3000, 4096, 5000}[shard%4]
+			d := gcsData{Key: HexBytes(bytes.Repeat([]byte{byte(0x40 + shard)}, 16)), P: 32, M: 1 << 38, N: n, Seed: uint32(seedEnv) + 77}
+			kC13.One(ev, c13Case{D: d, Qs: []gcsQuery{{Member: []int{n - 1}, RepeatF: 300}, {RepeatF: 400}, {Member: []int{0, n / 2}, RepeatF: 260}, {Foreign: []int{5}, RepeatF: 257}}})
 		}
 		kC13.Run(t, ev, perShard(pick(2000, 15000)))
 		ev.requireClasses("C13:P=0", "C13:P=32", "C13:N*M>=2^32", "C13:empty-filter", "C13:empty-query",
